@@ -41,6 +41,44 @@ def flat_vector(w, name):
     return Arr((total,), fn, 'real', label=('flatvec', maker))
 
 
+def explicit_step(w, sm, cells, ob, dt, r2='T2', r3='T3'):
+    """obligations on one symbolic call of solveExplicitPDE (shared with C01.R8)"""
+    fe = sm.func('pdesolver', 'solveExplicitPDE')
+    bc = w.boundary_conditions()
+    old = w.cell_variable('phi', bc)
+    w.ctx.events.clear()
+    construct = f"pdesolver.solveExplicitPDE/{w.dim}D"
+    try:
+        new = w.call('pdesolver', 'solveExplicitPDE', old, dt, flat_vector(w, 'rhs'))
+    except AbstractRaise as e:
+        ob(r2, construct, False, f"raises {e.exc}: {e.msg}", fe.loc())
+        new = None
+    if new is not None:
+        isobj = isinstance(new, AObj) and new.cls == 'CellVariable'
+        ob(r2, construct + '/result', isobj, f"returns {new!r}", fe.loc())
+        if isobj:
+            ob(r3, construct + '/identity', new is not old and new.attrs.get('_value') is not old.attrs.get('_value'),
+               "returned variable and its value array are distinct from the input", fe.loc())
+            val = snap(new.attrs['_value'])
+            okshape = val.ndim == w.dim and all(is_zero(s - e) for s, e in zip(val.shape, w.full_shape()))
+            ob(r2, construct + '/shape', okshape, f"value array shape {tuple(map(str, val.shape))}", fe.loc())
+            if okshape:
+                for P in cells:
+                    v = val.at(P)
+                    e = Rat.atom(('phi',) + tuple(P)) + dt * Rat.atom(('rhs',) + tuple(P))
+                    ob(r2, construct + '/interior', is_zero(v - e), f"cell {F.cstr(P)}: {fmt_rat(v)}", fe.loc())
+                # ghost = BC formula of the new interior : compare with cellValuesWithBoundaries applied to the expected interior
+                interior = Box(Arr(tuple(w.N), lambda idx: Rat.atom(('phi',) + tuple(i + 1 for i in idx)) + dt * Rat.atom(('rhs',) + tuple(i + 1 for i in idx))))
+                expect = snap(w.call('boundary', 'cellValuesWithBoundaries', interior, bc))
+                for a in range(w.dim):
+                    for g in (ZERO, w.N[a] + 1):
+                        G = tuple(g if k == a else w.t[k] for k in range(w.dim))
+                        ob(r2, construct + '/ghost', is_zero(val.at(G) - expect.at(G)), f"ghost {F.cstr(G)} = {fmt_rat(val.at(G), 6)}", fe.loc())
+                ob(r2, construct + '/BCs', new.attrs.get('BCs') is bc, "the new variable carries the boundary conditions of the old one", fe.loc())
+        muts = [e for e in w.ctx.events if e[0] == 'input-mutated' and str(e[1]).startswith('phi')]
+        ob(r3, construct + '/input-storage', not muts, f"writes into the input variable's storage: {muts[:3]}" if muts else "no write into phi_old storage on the clean path", fe.loc())
+
+
 def job(args):
     cls, tier = args
     sm = SourceModel()
@@ -90,43 +128,9 @@ def job(args):
         rg = w.matrix_row(M, G)
         vg = w.vector_at(RHS, G) if True else ZERO
         ob('T1', construct + '/ghost-rows', not rg and is_zero(vg), f"ghost cell {F.cstr(G)}: {len(rg)} matrix entries, RHS {fmt_rat(vg)}", fi.loc())
-    # ---- T2 / T3
-    fe = sm.func('pdesolver', 'solveExplicitPDE')
     units.add('pdesolver.solveExplicitPDE')
     units.add('cell.CellVariable.apply_BCs')
-    bc = w.boundary_conditions()
-    old = w.cell_variable('phi', bc)
-    w.ctx.events.clear()
-    construct = f"pdesolver.solveExplicitPDE/{w.dim}D"
-    try:
-        new = w.call('pdesolver', 'solveExplicitPDE', old, dt, flat_vector(w, 'rhs'))
-    except AbstractRaise as e:
-        ob('T2', construct, False, f"raises {e.exc}: {e.msg}", fe.loc())
-        new = None
-    if new is not None:
-        isobj = isinstance(new, AObj) and new.cls == 'CellVariable'
-        ob('T2', construct + '/result', isobj, f"returns {new!r}", fe.loc())
-        if isobj:
-            ob('T3', construct + '/identity', new is not old and new.attrs.get('_value') is not old.attrs.get('_value'),
-               "returned variable and its value array are distinct from the input", fe.loc())
-            val = snap(new.attrs['_value'])
-            okshape = val.ndim == w.dim and all(is_zero(s - e) for s, e in zip(val.shape, w.full_shape()))
-            ob('T2', construct + '/shape', okshape, f"value array shape {tuple(map(str, val.shape))}", fe.loc())
-            if okshape:
-                for P in cells:
-                    v = val.at(P)
-                    e = Rat.atom(('phi',) + tuple(P)) + dt * Rat.atom(('rhs',) + tuple(P))
-                    ob('T2', construct + '/interior', is_zero(v - e), f"cell {F.cstr(P)}: {fmt_rat(v)}", fe.loc())
-                # ghost = BC formula of the new interior : compare with cellValuesWithBoundaries applied to the expected interior
-                interior = Box(Arr(tuple(w.N), lambda idx: Rat.atom(('phi',) + tuple(i + 1 for i in idx)) + dt * Rat.atom(('rhs',) + tuple(i + 1 for i in idx))))
-                expect = snap(w.call('boundary', 'cellValuesWithBoundaries', interior, bc))
-                for a in range(w.dim):
-                    for g in (ZERO, w.N[a] + 1):
-                        G = tuple(g if k == a else w.t[k] for k in range(w.dim))
-                        ob('T2', construct + '/ghost', is_zero(val.at(G) - expect.at(G)), f"ghost {F.cstr(G)} = {fmt_rat(val.at(G), 6)}", fe.loc())
-                ob('T2', construct + '/BCs', new.attrs.get('BCs') is bc, "the new variable carries the boundary conditions of the old one", fe.loc())
-        muts = [e for e in w.ctx.events if e[0] == 'input-mutated' and str(e[1]).startswith('phi')]
-        ob('T3', construct + '/input-storage', not muts, f"writes into the input variable's storage: {muts[:3]}" if muts else "no write into phi_old storage on the clean path", fe.loc())
+    explicit_step(w, sm, cells, ob, dt)
     return dict(obs=obs, units=sorted(units), samples=samples, funcs=sorted(w.interp.funcs_seen))
 
 
